@@ -15,8 +15,8 @@ from vmon import util
 PROPERTY = "C16"
 LEVEL = "exploration"
 RULE = ("random (algorithm in 6, dimension n 2..10 as vector or matrix, sketch size 2..n, delta in "
-        "{0,1e-3,0.1,1}, lr) x gradient histories of length 1..20 from families {gauss, lowrank(rank<m), "
-        "scales, zeros-interleaved, repeated}; one case = one (config, history); non-trivial when a "
+        "{0,1e-9,1e-3,0.1,1}, lr) x gradient histories of length 1..20 from families {gauss, lowrank(rank<m), "
+        "scales, zeros-interleaved, repeated, tiny 1e-7..1e-4}; one case = one (config, history); non-trivial when a "
         "gradient is non-zero; distinct by config+history seed")
 ASSUMPTIONS = ["float64 comparisons with relative tolerance 1e-9 (1e-7 for dense-inverse cross checks scaled by condition number)"]
 DECIDING = ["closed_form_checked", "last_row_zero_checked", "bracket_checked", "alpha_checked",
@@ -25,7 +25,7 @@ MIN_NONTRIVIAL = 30
 TIMEOUT = {"quick": 900, "thorough": 5400}
 
 ALGS = ["OGD", "ADA", "S_ADA", "ADA_FD", "FD_SON", "RFD_SON"]
-FAMS = ["gauss", "lowrank", "scales", "zeros", "repeated"]
+FAMS = ["gauss", "lowrank", "scales", "zeros", "repeated", "tiny"]
 
 
 def shards(tier, seed):
@@ -46,7 +46,7 @@ def gen_case(rng, force_alg=None):
   if alg == "S_ADA" and rng.random() < 0.5:
     fam = "lowrank"
   # ADA_FD divides by (delta + sqrt-eigenvalue): delta must be positive there (0/0 otherwise).
-  deltas = [1e-3, 0.1, 1.0] if alg == "ADA_FD" else [0.0, 1e-3, 0.1, 1.0]
+  deltas = [1e-3, 0.1, 1.0, 1e-9] if alg == "ADA_FD" else [0.0, 1e-3, 0.1, 1.0, 1e-9]
   return {"alg": alg, "wshape": wshape, "m": m, "delta": float(rng.choice(deltas)),
           "lr": float(rng.choice([0.3, 1.0, 0.05])), "family": fam, "T": int(rng.integers(1, 21)),
           "hseed": int(rng.integers(0, 2 ** 31))}
@@ -63,6 +63,13 @@ def gen_history(c):
     gs = [rng.standard_normal(r) @ basis for _ in range(T)]
   elif fam == "scales":
     gs = [rng.standard_normal(n) * 10.0 ** rng.uniform(-3, 3) for _ in range(T)]
+  elif fam == "tiny":
+    # tiny gradients (with a tiny delta the preconditioner's eigenvalues sit far below float32 eps); low rank half of the time
+    if rng.random() < 0.5 and m:
+      basis = rng.standard_normal((max(1, m - 1), n))
+      gs = [(rng.standard_normal(max(1, m - 1)) @ basis) * 1e-5 for _ in range(T)]
+    else:
+      gs = [rng.standard_normal(n) * 10.0 ** rng.uniform(-7, -4) for _ in range(T)]
   elif fam == "zeros":
     gs = [rng.standard_normal(n) * (0.0 if t % 2 else 1.0) for t in range(T)]
   elif fam == "repeated":
